@@ -258,3 +258,37 @@ def c14_kernel_numba(ctx, kernel, form):
         KI = darsia.KernelInterpolation(k, sup.astype(np.float64), vals)
         got = KI(sup.astype(np.float64))
         ctx.ensure("interpolation reproduces the prescribed values at the support points", bool(np.allclose(got, vals, rtol=1e-3, atol=1e-3)))
+
+
+@ob("C14.kernel_matrix", cases=product_cases(nsup=(1, 2, 3), history=("fresh", "kernel-updated", "values-updated")),
+    mods=["darsia.signals.models.kernelinterpolation", "darsia.utils.kernels"], funcs=FUNCS, samples=(2, 4), tol=1e-4,
+    skip=("GaussianKernel.linear_combination", "LinearKernel.linear_combination"), budget={"timeout_ms": 15000},
+    cite="Kernel interpolation reproduces the prescribed values at its distinct, well-conditioned support points",
+    note="linear kernel with symbolic shift and symbolic prescribed values, concrete distinct supports; well-conditioned = non-singular kernel matrix (assumed)")
+def c14_kernel_matrix(ctx, nsup, history):
+    import darsia.utils.kernels as K
+    sup = np.array([[0.5, 1.0, 0.25], [1.5, -0.5, 0.75], [-1.0, 0.25, 2.0]], dtype=np.float64)[:nsup]
+    a = ctx.real("a", sample=(0.5, 2.0))
+    vals = np.array(ctx.reals("v", nsup, sample=(-1.0, 1.0)))
+    kern = lambda shift: K.LinearKernel(shift)
+    X = np.array([[sum(float(sup[i][c]) * float(sup[j][c]) for c in range(3)) + a for j in range(nsup)] for i in range(nsup)], dtype=object)
+    from vf.symnp import _det
+    det = _det(X) if ctx.sym else float(np.linalg.det(X.astype(float)))
+    ctx.assume(det > 1e-3 if not ctx.sym else (det != 0))
+    if history == "kernel-updated":
+        X1 = X + 1
+        ctx.assume((_det(X1) != 0) if ctx.sym else abs(float(np.linalg.det(X1.astype(float)))) > 1e-3)      # the earlier kernel is well-conditioned too
+        KI = darsia.KernelInterpolation(kern(a + 1), sup.copy(), vals.copy())
+        KI.update(kernel=kern(a))
+    elif history == "values-updated":
+        KI = darsia.KernelInterpolation(kern(a), sup.copy(), vals.copy() * 2)
+        KI.update(values=vals.copy())
+    else:
+        KI = darsia.KernelInterpolation(kern(a), sup.copy(), vals.copy())
+    ctx.ensure("supports are kept (distinct supports, none removed)", KI.num_supports == nsup)
+    ctx.witness("values_updated_after_setup_with_unsorted_supports", history == "values-updated" and nsup == 3)
+    order = [int(np.argmin(np.sum((sup - np.asarray(KI.supports[i], dtype=float)) ** 2, axis=1))) for i in range(nsup)]   # np.unique sorts
+    ctx.ensure("kernel matrix X[i,j] == k(s_i, s_j) incl. the diagonal", eq(KI.X, np.array([[X[order[i]][order[j]] for j in range(nsup)] for i in range(nsup)], dtype=object)))
+    w = KI.interpolation_weights
+    rep = [sum(w[n] * (sum(float(KI.supports[i][c]) * float(KI.supports[n][c]) for c in range(3)) + a) for n in range(nsup)) for i in range(nsup)]
+    ctx.ensure("plain kernel sum reproduces the prescribed values at the support points", eq(rep, [vals[order[i]] for i in range(nsup)]))
